@@ -601,6 +601,11 @@ impl CellBuffer {
         self.legend_css()
     }
 
+    /// the cell the canvas size is computed from
+    pub fn verif_last_occupied(&self) -> Cell {
+        self.last_occupied()
+    }
+
     /// (accepted fragments, rejected contact groups), unscaled
     pub fn verif_endorse(&self) -> (Vec<FragmentSpan>, Vec<Vec<FragmentSpan>>) {
         let Endorse { accepted, rejects } = self.endorse_to_fragment_spans();
